@@ -108,6 +108,7 @@ def build_classes(kinds, se, deps=()):
 
 _declared = set()
 _hyb = {}
+_KEPT_SOURCES = ["/* c14: a piece of text the caller keeps in one list for every build */"]
 
 
 def apply_deps(classes, deps):
@@ -265,7 +266,8 @@ def run_shard(shard, tier, seed):
                 if len(roots) == n and (roots == tuple(range(n)) or n <= 2):
                     ctx = xo.ContextCpu()
                     try:
-                        src, spec = ctx._build_sources(classes=out, extra_headers=[], specialize=True)
+                        # (the caller's own list of sources, one list object kept for all builds of the process)
+                        src, spec = ctx._build_sources(classes=out, extra_headers=[], specialize=True, sources=_KEPT_SOURCES)
                         cdefs = "\n".join(c._gen_c_decl({}) for c in out)
                     except Exception as e:
                         bad("C14.source", "source-assembly-raises:" + common.exc_failure(e), g, roots, repr(e))
@@ -295,7 +297,7 @@ def run_shard(shard, tier, seed):
                         res.transitions += 1
                         res.events["build"] += 1
                         try:
-                            ctx.add_kernels(kernels={}, extra_classes=[classes[i] for i in roots], extra_compile_args=("-O0", "-w"), extra_link_args=())
+                            ctx.add_kernels(kernels={}, sources=_KEPT_SOURCES, extra_classes=[classes[i] for i in roots], extra_compile_args=("-O0", "-w"), extra_link_args=())
                             res.outcomes["ok:build"] += 1
                         except Exception as e:
                             bad("C14.build", "add_kernels-raises:" + type(e).__name__, g, roots, str(e)[-800:])
